@@ -404,6 +404,7 @@ def run(ctx):
             batches.append(("systematic", gen_systematic(ctx.seed, engines, known, [1, 2, 3, 4, 5, 8, 13, 21, 34, 47, 55, 69])))
 
     all_fail, all_mism, stats_all, hist_all, samples = [], [], {}, {}, []
+    model_stats = {}
     lives_total = events_total = cmp_total = 0
     distinct = set()
     inconclusive = 0
@@ -429,6 +430,12 @@ def run(ctx):
                               jobs[di] if di < len(jobs) else None))
         all_mism += real_mism
         all_fail += fails
+        try:
+            for ln in open(os.path.join(d, "model.stats")):
+                k, v = ln.split()
+                model_stats[k] = max(model_stats.get(k, 0), int(v)) if k == "max_window" else model_stats.get(k, 0) + int(v)
+        except OSError:
+            pass
         cmp_total += cnt
         lives_total += lives
         events_total += events
@@ -489,6 +496,9 @@ def run(ctx):
         crash_point_events_accepted=events_total,
         crash_points_in_source=len(src_pts),
         powerloss_simulation=powerloss,
+        acceptor=dict(model_stats, note="max_window = most snapshot goroutines seen between 'snap file written' and 'WAL marker written' "
+                                        "(the schedule hypothesis of the theorems needs fewer than KeepBackup = 2); log_order_races = events accepted "
+                                        "after completing another goroutine's in-flight sub-step"),
         mismatches=len(all_mism),
         samples=samples[:5],
     ), assumptions=[
